@@ -639,7 +639,17 @@ pub fn eval_replay(args: &[String]) {
     let mut out = Out::new(None);
     let (mut n, mut bad, mut dc) = (0u64, 0u64, 0u64);
     // --act X: every scripted handler additionally performs the re-entrant action X (C14)
+    // an action "X+text" additionally runs the OUTER evaluation through execute(text) on the rendered program, twice (the second run is
+    // the one judged): whatever execute() keeps between calls is in play while the handlers re-enter
+    let mut via_text = false;
     if let Some(act) = arg_value(args, "--act") {
+        let act = match act.strip_suffix("+text") {
+            Some(a) => {
+                via_text = true;
+                a.to_string()
+            }
+            None => act,
+        };
         for r in recs.iter_mut() {
             let hs: Vec<String> = r["handlers"].as_object().map(|o| o.keys().cloned().collect()).unwrap_or_default();
             let mut m = serde_json::Map::new();
@@ -661,7 +671,25 @@ pub fn eval_replay(args: &[String]) {
             out.flush();
         }
         n += 1;
-        let o = run_case(r, true);
+        let mut text_form: Option<String> = None;
+        if via_text {
+            let mut scratch = Context::new();
+            let mut hidden = 0u32;
+            let ast = build_ast(&r["prog"], &mut scratch, &mut hidden);
+            let text = ast.expr();
+            let t1 = text.clone();
+            let same_tree = guarded(move || parse_expression(leak(&t1)).map(|a| crate::astjson::ast_to_json(&a)).ok()).ok().flatten() == Some(crate::astjson::ast_to_json(&ast));
+            if hidden == 0 && same_tree {
+                text_form = Some(text);
+            }
+        }
+        let o = match &text_form {
+            Some(t) => {
+                let _ = run_case_src(r, false, None, Some(t.as_str()));
+                run_case_src(r, true, None, Some(t.as_str()))
+            }
+            None => run_case(r, true),
+        };
         let exp_st = r["st"].as_str().unwrap();
         let mut why: Vec<String> = Vec::new();
         if exp_st == "dc" {
@@ -1034,4 +1062,43 @@ pub fn determinism_replay(args: &[String]) {
     }
     out.line(&json!({"summary": {"cases": n, "mismatches": bad, "text_path": text_cases, "text_path_skipped": text_skipped}}));
     out.flush();
+}
+
+
+/// C14, directed: re-entrancy at depth.  A registered function whose handler evaluates a sub-program that calls it again (levels deep,
+/// each level under `pad` prefix minuses), and a context function reached by bare name that evaluates `[[..[again]..]]` on a context
+/// holding itself.  Prints {"fn": outcome, "bare": outcome}; a re-entrant evaluation is an ordinary evaluation, so both must be Ok.
+pub fn reent_depth(args: &[String]) {
+    silence_panics();
+    let levels = arg_u64(args, "--levels", 16) as i64;
+    let pad = arg_u64(args, "--pad", 40) as usize;
+    let pad2 = pad;
+    expression_engine::register_function("deepf", Arc::new(move |p: Vec<Value>| {
+        let n = p.first().cloned().unwrap_or(Value::None).integer()?;
+        if n <= 0 {
+            return Ok(Value::from(1));
+        }
+        expression_engine::execute(leak(&format!("{}deepf({})", "- ".repeat(pad2), n - 1)), Context::new())
+    }));
+    let r1 = guarded(move || expression_engine::execute(leak(&format!("deepf({})", levels)), Context::new()));
+    fn make_ctx(counter: Arc<std::sync::atomic::AtomicI64>, pad: usize) -> Context {
+        let mut c = Context::new();
+        let c2 = counter.clone();
+        c.set_func("again", Arc::new(move |_| {
+            if c2.fetch_sub(1, std::sync::atomic::Ordering::SeqCst) <= 0 {
+                return Ok(Value::from(1));
+            }
+            let text = format!("{}again{}", "[".repeat(pad), "]".repeat(pad));
+            // the innermost value comes back wrapped in `pad` one-element lists: unwrap it again
+            let mut v = expression_engine::execute(leak(&text), make_ctx(c2.clone(), pad))?;
+            for _ in 0..pad {
+                v = v.list()?.into_iter().next().unwrap_or(Value::None);
+            }
+            Ok(v)
+        }));
+        c
+    }
+    let counter = Arc::new(std::sync::atomic::AtomicI64::new(levels));
+    let r2 = guarded(move || expression_engine::execute("again", make_ctx(counter, pad.min(30))));
+    println!("{}", json!({"fn": result_json(r1), "bare": result_json(r2)}));
 }
